@@ -180,6 +180,34 @@ SMS_WILD = [
 ]
 
 
+def SMC(text, outer, outer_sources, inner, inner_sources, original, name='i.js', outer_contents=(), inner_contents=(), outer_names=(), inner_names=(), remove=False, max=5, root=None):
+    t = SM(text, outer, outer_sources, outer_contents, outer_names, root, max)
+    t['name'] = name
+    t['original_source'] = original
+    t['inner_map'] = {'mappings': ({'template': inner, 'max': max, 'consistent': True} if '?' in inner else inner), 'sources': list(inner_sources), 'sourcesContent': list(inner_contents), 'names': list(inner_names)}
+    t['remove_original_source'] = remove
+    return t
+
+
+COMBINED_QUICK = [
+    ('combined: inner digits symbolic', SMC('ab\ncd', 'AAAA,CAAC;ACAA', ('i.js', 'o.js'), 'AAAA,?AA?;AA?A', ('q.js',), 'xyz\nuv', inner_contents=('01234\n567',))),
+    ('combined: outer column into inner symbolic', SMC('abcd', 'AAA?,CAA?', ('i.js',), 'AAAA,CAAE,CAAC', ('q.js',), 'xyzw', inner_contents=('0123456',))),
+    ('combined: remove original, partial inner', SMC('ab\ncd', 'AAAA,CAAC;AACA', ('i.js',), '?AAA', ('q.js',), 'xyz\nuv', remove=True)),
+    ('combined: keep original, partial inner', SMC('ab\ncd', 'AAAA,CAAC;AAC?', ('i.js',), 'AAAA', ('q.js',), 'xyz\nuv', remove=False)),
+    ('combined: original from outer sourcesContent', SMC('ab\ncd', 'AAAA;AAC?', ('i.js', 'o.js'), 'AAAA;AACA', ('q.js',), None, outer_contents=('xy\nuv', 'oo'))),
+    ('combined: identity column adjustment', SMC('abcd', 'AAA?', ('i.js',), 'AAAA', ('q.js',), 'abc\nde', inner_contents=('abc\nde',))),
+    ('combined: inner names and outer names', SMC('abcd', 'AAAAA,CAA?C', ('i.js',), 'AAAAA,EAAE', ('q.js',), 'xyzw', outer_names=('xy', 'zw'), inner_names=('n0',), inner_contents=('xyzw',))),
+    ('combined: 3 outer sources, 2 inner sources', SMC('ab\ncd', 'AAAA,CCAA;ACAC', ('o.js', 'i.js', 'p.js'), 'AAAA,?CAA', ('q.js', 'r.js'), 'xyz', inner_contents=('q', 'r'))),
+    ('combined under concat', CC(SMC('ab', 'AAAA,CAA?', ('i.js',), 'AAAA,CAAE', ('q.js',), 'xyz'), RS('!'))),
+]
+
+
+def combined_jobs(props):
+    def f(tier, seed):
+        return [J('tree:' + t[0], 'jobs.streams:tree_job', dict(tree=t[1], props=props), timeout=900) for t in COMBINED_QUICK]
+    return f
+
+
 def sms_jobs(props, wild=False):
     def f(tier, seed):
         jobs = []
@@ -334,9 +362,9 @@ PROPS = {
                 outside='sequences longer than 3 mappings; simultaneous large values in several fields (argued by field independence, not discharged); deltas >= 2^30',
                 assumptions=['input mapping sequences are strictly sorted by generated position with lines >= 1 and original lines >= 1',
                              'decoder-vs-format jobs assume non-negative running values below 2^31 (as the property states)']),
-    'C01': dict(jobs=[tree_jobs(['C01']), replace_jobs(['C01']), sms_jobs(['C01'])], bounds=RTREE_BOUNDS, outside=TREE_OUTSIDE + '; CachedSource / SourceMapSource trees until their stages are registered', assumptions=TREE_ASSUME),
-    'C02': dict(jobs=[tree_jobs(['C02']), replace_jobs(['C02']), sms_jobs(['C02'])], bounds=RTREE_BOUNDS, outside=TREE_OUTSIDE + '; CachedSource / SourceMapSource trees until their stages are registered', assumptions=TREE_ASSUME),
-    'C03': dict(jobs=[tree_jobs(['C03']), replace_jobs(['C03']), sms_jobs(['C03'])], bounds=RTREE_BOUNDS, outside=TREE_OUTSIDE, assumptions=TREE_ASSUME),
+    'C01': dict(jobs=[tree_jobs(['C01']), replace_jobs(['C01']), sms_jobs(['C01']), combined_jobs(['C01'])], bounds=RTREE_BOUNDS, outside=TREE_OUTSIDE + '; CachedSource / SourceMapSource trees until their stages are registered', assumptions=TREE_ASSUME),
+    'C02': dict(jobs=[tree_jobs(['C02']), replace_jobs(['C02']), sms_jobs(['C02']), combined_jobs(['C02'])], bounds=RTREE_BOUNDS, outside=TREE_OUTSIDE + '; CachedSource / SourceMapSource trees until their stages are registered', assumptions=TREE_ASSUME),
+    'C03': dict(jobs=[tree_jobs(['C03']), replace_jobs(['C03']), sms_jobs(['C03']), combined_jobs(['C03'])], bounds=RTREE_BOUNDS, outside=TREE_OUTSIDE, assumptions=TREE_ASSUME),
     'C04': dict(jobs=[tree_jobs(['C04']), replace_jobs(['C04'])], bounds=RTREE_BOUNDS, outside=TREE_OUTSIDE, assumptions=TREE_ASSUME),
     'C07': dict(jobs=[views_jobs], bounds={'quick': 'all trees of TREES_QUICK, REPLACE_QUICK (symbolic replacement ranges) and four SourceMapSource shapes: source(), rope(), buffer(), size(), to_writer() into a recording writer, and to_writer() into a writer that fails after a SYMBOLIC number k <= 64 of bytes', 'thorough': 'as quick'},
                 outside='invalid UTF-8 buffers and multi-byte texts (lossy decoding is a std function; engine K covers RawSource/RawBufferSource byte views when registered); the real Rope representation (C16)', assumptions=TREE_ASSUME + ['std::io::Write is modelled by a recording writer whose write_all accepts a prefix and then fails']),
@@ -344,9 +372,11 @@ PROPS = {
                 outside='multi-digit VLQ fields in the given map (the decoder itself is C12), texts longer than 3 lines, the user-defined-source entry stream_chunks_default (same function underneath), non-ASCII text', assumptions=TREE_ASSUME),
     'C05': dict(jobs=[replace_jobs(['C05'])], bounds=RTREE_BOUNDS, outside='texts longer than the catalog, more than 4 replacements, non-ASCII texts (engine K covers the real String/Rope code on multi-byte shapes when registered); rope()/buffer()/size() views are C07', assumptions=TREE_ASSUME),
     'C06': dict(jobs=[tree_jobs(['C06']), replace_jobs(['C06']), sms_jobs(['C06'])], bounds=RTREE_BOUNDS, outside=TREE_OUTSIDE + '; SourceMapSource children with several sources/names until stage S2b is registered', assumptions=TREE_ASSUME),
+    'C09': dict(jobs=[combined_jobs(['C09'])], bounds={'quick': 'catalog COMBINED_QUICK: SourceMapSource with an inner source map over concrete ASCII texts (<= 2 lines); outer and inner maps are mapping-string templates with up to 3 SYMBOLIC single-digit fields (outer original column into the inner source, inner generated/original columns, lines), 1-3 outer sources (the inner source name in first or second place), 1-2 inner sources with/without contents, names on either side, original_source given or taken from the outer sourcesContent, remove_original_source both ways; all four streams and map(); also as a child of a ConcatSource', 'thorough': 'as quick'},
+                outside='multi-digit VLQ fields, more than 2 lines, non-ASCII, inner maps that themselves came from a combination (just another map value here)', assumptions=TREE_ASSUME),
     'C10': dict(jobs=[c10_jobs], bounds={'quick': 'catalog C10_QUICK: CachedSource over Original / Raw / ConcatSource / ReplaceSource / SourceMapSource inners (<= 3 symbolic bytes or symbolic replacement range / map digits), CachedSource inside a ConcatSource / under a ReplaceSource / nested; CALL HISTORY of 2-3 slots whose operation the solver picks from {map(columns), map(lines), stream(columns), stream(lines), source, hash, clone-and-continue-on-the-clone}, then source, size, all four streams and both maps are compared with the wrapped source alone (text, end info, per-position attribution; file and line for columns=false)', 'thorough': 'as quick'},
                 outside='histories longer than 3 calls; texts beyond the catalog; attribution equality is per position, not chunk-for-chunk (the replay path legitimately coarsens chunks)', assumptions=TREE_ASSUME + ['DashMap is a finite map from MapOptions to heap cells (contracts.py); FxHasher::finish is an uninterpreted function of the written stream']),
-    'C11': dict(jobs=[tree_jobs(['C11']), replace_jobs(['C11']), sms_jobs(['C11']), codec_c11], bounds=RTREE_BOUNDS, outside=TREE_OUTSIDE, assumptions=TREE_ASSUME),
+    'C11': dict(jobs=[tree_jobs(['C11']), replace_jobs(['C11']), sms_jobs(['C11']), combined_jobs(['C11']), codec_c11], bounds=RTREE_BOUNDS, outside=TREE_OUTSIDE, assumptions=TREE_ASSUME),
     'C13': dict(jobs=[c13_jobs], bounds={'quick': 'catalog lib/props.py:C13_QUICK: nested boxed ConcatSource groupings (depth <= 3) vs the flat concatenation; single-child / empty-children ConcatSource, boxing and a ReplaceSource without replacements vs the wrapped source; <= 4 symbolic bytes; text, per-position attribution through map() (both column settings) and through the chunk stream, end info', 'thorough': 'as quick'},
                 outside=TREE_OUTSIDE + '; typed nesting flattened by ConcatSource::new/add and CachedSource wrappers until their stages are registered', assumptions=TREE_ASSUME),
     'C16': dict(jobs=[rope_jobs], bounds={'quick': 'rope.rs itself interpreted from MIR (no Rope contract): construction programs of the catalog ROPE_QUICK (<= 7 steps over new/from/from_iter/add/append/clone/get_byte_slice, <= 5 pieces incl. empty pieces, 1-4 byte UTF-8 characters, pieces cut inside lines; piece CONTENT symbolic over {a,b}, line structure concrete; slice bounds SYMBOLIC in [0, len+1]); every observer on every register, all pairs for ==, starts_with, == &str; get_byte at every index', 'thorough': 'as quick plus ROPE_THOROUGH'},
@@ -355,7 +385,7 @@ PROPS = {
                 outside='three threads; schedules with more switches; weak memory (all accesses are SeqCst in the crate; the model is sequentially consistent); switch points inside user-defined child sources; only the cache-entry-replacement class of counterexamples has a native forcing harness (real threads + a gated inner source), other interleavings would be reported as inconclusive', assumptions=['DashMap is modelled as ONE shard with a reader/writer lock held by the guards the real API returns; std Mutex / OnceLock block']),
     'C19': dict(jobs=[rope_jobs, wi_jobs, codec_c11, c18_jobs], bounds={'quick': 'unsafe sites reached through checked contracts: slice::get_unchecked / str::get_unchecked / Rope::byte_slice_unchecked (rope jobs of C16 and WithIndices::substring with SYMBOLIC char indices incl. usize::MAX over multi-byte &str and Rope lines), String::from_utf8_unchecked in both encoders (ASCII obligation on every drain)', 'thorough': 'as quick'},
                 outside='the transmute in replace_source.rs: the replacement vector is only borrowed while &self is borrowed and mutation needs &mut self (a type-system argument, not a query); misaligned access / allocator-level UB (no raw pointer arithmetic in the crate); sanitizer runs are not part of this technique', assumptions=['an unchecked operation is modelled as its checked form whose failure is reported']),
-    'C17': dict(jobs=[codec_c17, sms_jobs(['C17'], True), tree_jobs(['C17']), replace_jobs(['C17'])],
+    'C17': dict(jobs=[codec_c17, sms_jobs(['C17'], True), combined_jobs(['C17']), tree_jobs(['C17']), replace_jobs(['C17'])],
                 bounds={'quick': 'decoder: inductive step over ONE byte (all 256 values) from every decoder state satisfying the stated invariant - covers strings of every length < 2^31; '
                                  'plus all byte strings of length <= 3 and continuation runs of 12/13/14/20 digits in each of the 5 field slots, debug and release MIR',
                         'thorough': 'as quick plus all byte strings of length <= 5, continuation runs 1..40'},
